@@ -10,10 +10,12 @@ import (
 	"encoding/json"
 	"fmt"
 	"os"
+	"runtime"
 	"sort"
 	"strings"
 	"sync"
 	"sync/atomic"
+	"time"
 )
 
 // mu guards the simulator's own state.  It only matters when the code under
@@ -139,7 +141,29 @@ func Rel(p string) string {
 }
 
 // Tick is inserted at every function entry and loop head of gocc's own packages.
+// Threaded is set (by a generated init) when the code under test has
+// goroutines that could not be put under the cooperative scheduler.  Then every
+// Tick perturbs the real schedule a little, seeded by the plan: the run is
+// observation of real executions, made more varied, not a simulation.
+var Threaded bool
+
+var noiseCtr uint64
+
+func noise() {
+	n := atomic.AddUint64(&noiseCtr, 1)
+	h := mix(n*0x9e3779b97f4a7c15 ^ ThePlan.Sched.Seed)
+	switch {
+	case h%48 == 0:
+		runtime.Gosched()
+	case h%3000 == 1:
+		time.Sleep(time.Duration((h>>20)%300) * time.Microsecond)
+	}
+}
+
 func Tick() {
+	if Threaded {
+		noise()
+	}
 	if atomic.AddInt64(&ticks, 1) > ThePlan.TickBudget {
 		Logf("tick-budget-exceeded %d", ticks)
 		AtExit(ExitTickBudget)
